@@ -30,19 +30,19 @@ ASSUMPTIONS = [
 
 
 def examples(tier):
-    return 480 if tier == "quick" else 8000
+    return 2400 if tier == "quick" else 24000
 
 
 @st.composite
 def strategy(draw, tier="quick"):
     boost = draw(st.sampled_from([True, True, False]))
-    g = draw(gen.grammar(regimes=["BOOL", "BOOL", "FLOAT"], boost=boost, max_terms=2 if tier == "quick" else 3))
+    g = draw(gen.grammar(regimes=["BOOL", "BOOL", "FLOAT"], boost=boost, max_terms=4))
     return {
         "g": g,
         "alg": draw(st.sampled_from(["earley", "cky"])),
         "perm": draw(st.sampled_from([0, 1, "rev"])),
         "rename": draw(st.sampled_from(["id", "id", "tuple", "int"])),
-        "n": 3 if tier == "quick" else draw(st.sampled_from([3, 4])),
+        "n": (2 if len(g["V"]) == 4 else 3) if tier == "quick" else draw(st.sampled_from([3, 4] if len(g["V"]) <= 2 else [3] if len(g["V"]) == 3 else [2, 3])),
         "eos_ctx": draw(st.integers(0, 3)),
     }
 
